@@ -82,7 +82,7 @@ def coef_class(c):
     return 'dense' if nz == len(c) else 'sparse'
 
 
-CONTAINERS = ['array', 'array', 'list', 'tuple', 'view', 'array-f32', 'int-list']
+CONTAINERS = ['array', 'array', 'list', 'tuple', 'view', 'array-f32', 'int-list', 'array-int']
 # an integer ndarray of coefficients is only read by jacobi_sum_clenshaw; the Qbfs / Q2d changes of basis allocate their output
 # 'like' the input and truncate on the unchanged tree (repair pending as fixes/C09/06-q-change-of-basis-integer-coefficients):
 # add 'array-int' to CONTAINERS once that repair is in the repository
